@@ -15,6 +15,7 @@ from gsvc.contract import contract
 from contracts import gen_common as gc
 from contracts import axioms as ax
 from contracts.c11 import sym_model, _q, _changed_model
+from gsvc import symrun
 from gstools.field.generator import Fourier
 
 P = "C17"
@@ -187,3 +188,44 @@ def odd_rejected(ctx, dim):
     except ValueError:
         ok = True
     ctx.ensure("ValueError", ok)
+
+
+@contract(P, "Fourier.period,mode_no/settings-owned-by-the-generator(caller-edits-its-array-afterwards)",
+          params=[{"dim": d, "via": v, "what": w} for d in (1, 2, 3) for v in ("Fourier", "SRF", "update")
+                  for w in ("period", "mode_no")],
+          functions=["field/generator.py:Fourier._fill_to_dim", "field/generator.py:Fourier.update",
+                     "field/generator.py:Fourier.__init__"],
+          bounded="native run: float64 / int arrays with exactly dim and with dim + 1 entries, one in-place edit, one model change")
+def settings_owned(ctx, dim, via, what):
+    """update history: the period (mode numbers) GIVEN for an axis stays the period of the field until the user
+    changes the setting: an in-place edit of the array the caller handed over is not a change of the setting.  After
+    a later model update the field still repeats with the period given"""
+    import gstools as gs
+    ok = True
+    with symrun.native():
+        for extra in (0, 1):
+            per0 = [6.0, 9.0, 7.5, 4.0][:dim + extra]
+            mn0 = [4, 6, 4, 8][:dim + extra]
+            per = np.array(per0, dtype=np.double)
+            mn = np.array(mn0, dtype=int)
+            mod = gs.Gaussian(dim=dim, var=1.3, len_scale=2.0)
+            if via == "Fourier":
+                g = Fourier(mod, period=per, mode_no=mn, seed=5)
+            elif via == "SRF":
+                g = gs.SRF(mod, generator="Fourier", period=per, mode_no=mn, seed=5).generator
+            else:
+                g = Fourier(mod, period=[5.0] * dim, mode_no=[2] * dim, seed=5)
+                g.update(period=per, mode_no=mn)
+            if what == "period":
+                per *= 1.6
+            else:
+                mn += 2
+            g.update(model=gs.Gaussian(dim=dim, var=1.3, len_scale=3.0))
+            ref = Fourier(gs.Gaussian(dim=dim, var=1.3, len_scale=3.0), period=per0[:dim], mode_no=mn0[:dim], seed=5)
+            ok = ok and np.array_equal(np.asarray(g.period), np.asarray(per0[:dim], dtype=float))
+            ok = ok and list(g.mode_no) == mn0[:dim]
+            x = np.array([[0.3, 1.1]] * dim)
+            shift = x.copy()
+            shift[0] += per0[0]
+            ok = ok and np.allclose(g(x), ref(x), rtol=1e-10, atol=1e-12) and np.allclose(g(x), g(shift), rtol=1e-9, atol=1e-10)
+    ctx.ensure("period,mode_no=as-given;field=fresh-generator;periodic-with-the-given-period", ok)
